@@ -106,6 +106,16 @@ func (t *tbl) Call(ip *absint.Interp, site ssa.CallInstruction, args []absint.Va
 	}
 	cal := core.Callee(com)
 	if cal == nil {
+		// a named function called through a function value (a dispatch table entry, a callback parameter): the same
+		// oracle answers as for a static call of it
+		if fv, ok := ip.CurFn.(*ssa.Function); ok && fv.Parent() == nil {
+			cal = fv
+			if o := fv.Origin(); o != nil {
+				cal = o
+			}
+		}
+	}
+	if cal == nil {
 		if t.dynamic != nil && ip.CurFn != nil {
 			return t.dynamic(ip, ip.CurFn, args)
 		}
@@ -130,6 +140,21 @@ func (t *tbl) Call(ip *absint.Interp, site ssa.CallInstruction, args []absint.Va
 		return nil, true // synchronisation has no effect on a sequential schedule
 	case full == "fmt.Sprintf" || full == "fmt.Sprint":
 		return &absint.Opaque{Why: "text"}, true
+	case strings.HasPrefix(full, "(*strings.Builder)."):
+		// message building: the text is opaque, writing never fails
+		switch cal.Name() {
+		case "String":
+			return &absint.Opaque{Why: "text"}, true
+		case "Len":
+			return &absint.Opaque{Why: "length"}, true
+		case "WriteString", "Write", "WriteRune":
+			return absint.Tuple{&absint.Opaque{Why: "n"}, absint.Nil{}}, true
+		case "WriteByte":
+			return absint.Nil{}, true
+		}
+		return nil, true
+	case full == "fmt.Fprintf" || full == "fmt.Fprint" || full == "fmt.Fprintln":
+		return absint.Tuple{&absint.Opaque{Why: "n"}, absint.Nil{}}, true
 	case strings.HasPrefix(full, "(*sync.Map)."):
 		// sync.Map as a sequential map (atomicity of the single operations is the library's; C20 decides their use)
 		m := t.syncMap(args[0])
